@@ -3,13 +3,20 @@
 (*                                                                              *)
 (* The schema of this module (rendered by the harness):                           *)
 (*   doc   := rec+                                                                *)
-(*   rec   := @id:int (required) @flag:boolean?                                   *)
-(*            name:string, tags:list of int ?, price? , para?, (a:int | b:string)*  *)
+(*   rec   := @id:int (required) @flag:boolean? @ucode:code?                       *)
+(*            name:string, tags:list of int {0,2}, code?, opt?, mark?, price?,     *)
+(*            para?, (a:int | b:string)*                                           *)
+(*   code  := union(int, string) restricted by pattern [0-9]{3}|[a-z]{2,5}          *)
+(*   opt   := nillable int                                                         *)
+(*   mark  := empty content with @lvl:int?                                         *)
 (*   price := decimal simple content with @cur:string (required)                  *)
 (*   para  := mixed content: text, (em:string)*                                   *)
 (* A document is a flat node list [path, name, attrs, text] (as in Validator.tla);  *)
 (* text is a value class: "-" none, "s" a string, "i" an int, "d" a decimal,        *)
-(* "l" a list of ints, "m" mixed text, "x" something that is not a number.          *)
+(* "l" a list of ints, "m" mixed text, "x" something that is not a number,          *)
+(* "u3" three digits, "ua" two to five lower-case letters (the two branches of the   *)
+(* pattern of `code`); attribute value classes "i", "bool", "s", "u3", "ua", and for  *)
+(* xsi:nil "t" / "f".                                                              *)
 (*                                                                              *)
 (* Valid(nodes) is the declarative validity of such a tree: it judges what          *)
 (* encode() returns (the implementation's own validator is not the judge).         *)
@@ -29,23 +36,31 @@ AttrNames(n) == {a[1] : a \in n.attrs}
 AttrVal(n, a) == (CHOOSE x \in n.attrs : x[1] = a)[2]
 NoKids(ns, n) == KidsOf(ns, n.path) = <<>>
 
-(* rec content: name, tags?, price?, para?, (a|b)* *)
+(* rec content: name, tags{0,2}, code?, opt?, mark?, price?, para?, (a|b)* *)
 RECURSIVE AllAB(_)
 AllAB(w) == w = <<>> \/ (Head(w) \in {"a", "b"} /\ AllAB(Tail(w)))
 Opt(w, x) == IF w # <<>> /\ Head(w) = x THEN Tail(w) ELSE w
 RecContentOK(w) == /\ w # <<>> /\ Head(w) = "name"
-                   /\ AllAB(Opt(Opt(Opt(Tail(w), "tags"), "price"), "para"))
+                   /\ AllAB(Opt(Opt(Opt(Opt(Opt(Opt(Opt(Tail(w), "tags"), "tags"), "code"), "opt"),
+                                        "mark"), "price"), "para"))
 
 NodeOK(ns, n) ==
   CASE n.name = "doc"  -> /\ n.attrs = {} /\ n.text = "-"
                           /\ LET w == NamesOf(KidsOf(ns, n.path)) IN
                                w # <<>> /\ \A i \in DOMAIN w : w[i] = "rec"
-    [] n.name = "rec"  -> /\ AttrNames(n) \subseteq {"id", "flag"} /\ "id" \in AttrNames(n)
+    [] n.name = "rec"  -> /\ AttrNames(n) \subseteq {"id", "flag", "ucode"} /\ "id" \in AttrNames(n)
                           /\ AttrVal(n, "id") = "i"
                           /\ ("flag" \in AttrNames(n) => AttrVal(n, "flag") = "bool")
+                          /\ ("ucode" \in AttrNames(n) => AttrVal(n, "ucode") \in {"u3", "ua"})
                           /\ n.text = "-" /\ RecContentOK(NamesOf(KidsOf(ns, n.path)))
     [] n.name = "name" -> n.attrs = {} /\ n.text \in {"s", "i", "d", "x", "-"} /\ NoKids(ns, n)
     [] n.name = "tags" -> n.attrs = {} /\ n.text \in {"l", "i", "-"} /\ NoKids(ns, n)
+    [] n.name = "code" -> n.attrs = {} /\ n.text \in {"u3", "ua"} /\ NoKids(ns, n)
+    [] n.name = "opt"  -> /\ AttrNames(n) \subseteq {"nil"} /\ NoKids(ns, n)
+                          /\ IF "nil" \in AttrNames(n) /\ AttrVal(n, "nil") = "t" THEN n.text = "-"
+                             ELSE ("nil" \in AttrNames(n) => AttrVal(n, "nil") = "f") /\ n.text \in {"i", "u3"}
+    [] n.name = "mark" -> /\ AttrNames(n) \subseteq {"lvl"} /\ n.text = "-" /\ NoKids(ns, n)
+                          /\ ("lvl" \in AttrNames(n) => AttrVal(n, "lvl") = "i")
     [] n.name = "price" -> /\ AttrNames(n) = {"cur"} /\ n.text \in {"d", "i"} /\ NoKids(ns, n)
     [] n.name = "para" -> /\ n.attrs = {} /\ \A k \in DOMAIN KidsOf(ns, n.path) : KidsOf(ns, n.path)[k].name = "em"
     [] n.name = "em"   -> n.attrs = {} /\ NoKids(ns, n)
@@ -59,7 +74,8 @@ Valid(ns) == /\ ns # <<>> /\ ns[1].path = <<>> /\ ns[1].name = "doc"
 ------------------------------------------------------------------------------
 (* generator of valid documents *)
 Node(p, name, attrs, text) == [path |-> p, name |-> name, attrs |-> attrs, text |-> text]
-RecCfg == [flag : BOOLEAN, tags : BOOLEAN, price : BOOLEAN, para : 0..2,
+RecCfg == [flag : BOOLEAN, tags : 0..2, code : {"-", "u3", "ua"}, ucode : {"-", "u3", "ua"},
+           opt : {"-", "i", "nil"}, mark : {"-", "plain", "lvl"}, price : BOOLEAN, para : 0..2,
            ab : {<<>>, <<"a">>, <<"b">>, <<"a", "a">>, <<"a", "b">>, <<"b", "a">>, <<"a", "b", "a">>,
                  <<"b", "a", "b">>, <<"a", "a", "b">>}]
 RECURSIVE Seq2Nodes(_, _, _)
@@ -68,11 +84,19 @@ Seq2Nodes(p, ks, i) == IF i > Len(ks) THEN <<>> ELSE
    \o (IF ks[i][1] = "para" THEN [k \in 1..ks[i][4] |-> Node(Append(Append(p, i), k), "em", {}, "s")] ELSE <<>>)
    \o Seq2Nodes(p, ks, i + 1)
 RecKids(c) == <<<<"name", {}, "s", 0>>>>
-              \o (IF c.tags THEN <<<<"tags", {}, "l", 0>>>> ELSE <<>>)
+              \o [i \in 1..c.tags |-> <<"tags", {}, "l", 0>>]
+              \o (IF c.code # "-" THEN <<<<"code", {}, c.code, 0>>>> ELSE <<>>)
+              \o (CASE c.opt = "-" -> <<>>
+                    [] c.opt = "i" -> <<<<"opt", {}, "i", 0>>>>
+                    [] c.opt = "nil" -> <<<<"opt", {<<"nil", "t">>}, "-", 0>>>>)
+              \o (CASE c.mark = "-" -> <<>>
+                    [] c.mark = "plain" -> <<<<"mark", {}, "-", 0>>>>
+                    [] c.mark = "lvl" -> <<<<"mark", {<<"lvl", "i">>}, "-", 0>>>>)
               \o (IF c.price THEN <<<<"price", {<<"cur", "s">>}, "d", 0>>>> ELSE <<>>)
               \o (IF c.para > 0 THEN <<<<"para", {}, "m", c.para - 1>>>> ELSE <<>>)
               \o [i \in DOMAIN c.ab |-> <<c.ab[i], {}, IF c.ab[i] = "a" THEN "i" ELSE "s", 0>>]
-RecNodes(p, c) == <<Node(p, "rec", {<<"id", "i">>} \cup (IF c.flag THEN {<<"flag", "bool">>} ELSE {}), "-")>>
+RecNodes(p, c) == <<Node(p, "rec", {<<"id", "i">>} \cup (IF c.flag THEN {<<"flag", "bool">>} ELSE {})
+                                    \cup (IF c.ucode # "-" THEN {<<"ucode", c.ucode>>} ELSE {}), "-")>>
                   \o Seq2Nodes(p, RecKids(c), 1)
 Contiguous(w) == \A i \in DOMAIN w : \A j \in DOMAIN w : (i < j /\ w[i] = w[j]) => \A k \in i..j : w[k] = w[i]
 
